@@ -234,8 +234,14 @@ class World:
       if store is not None:
         store.clear()
     consts = config._CONSTANTS
-    for k in [k for k, _ in list(consts.items()) if k != 'gin.REQUIRED']:
-      consts.pop(k)
+    try:
+      for k in [k for k, _ in list(consts.items()) if k != 'gin.REQUIRED']:
+        consts.pop(k)
+    except Exception:  # pylint: disable=broad-except
+      # the map under test cannot even be emptied entry by entry: start from a new one
+      from gin import selector_map
+      config._CONSTANTS = selector_map.SelectorMap()
+      config._CONSTANTS['gin.REQUIRED'] = config.REQUIRED
     config._set_config_is_locked(False)
 
   def close(self):
@@ -760,8 +766,10 @@ class World:
       else:
         raise AdapterError('unknown binding api %r' % api)
       res['status'] = 'ok'
-    except (ValueError, RuntimeError, KeyError) as e:
-      res['status'] = type(e).__name__
+    except AdapterError:
+      raise
+    except Exception as e:  # pylint: disable=broad-except
+      res['status'] = type(e).__name__      # any class the specification does not predict is a divergence, not a crash
       res['msg'] = str(e)
     return res
 
